@@ -965,6 +965,11 @@ func rgStatusRejects(t *tr, p *packages.Package, fd *ast.FuncDecl, name, cond, c
 }
 
 func rgScanFile(p *packages.Package, f *ast.File, rel string, panics, asserts, idx, mapw *[]string) {
+	rgScanFileWith(p, f, rel, func(n ast.Node) string { return nodeString(p, n) }, panics, asserts, idx, mapw)
+}
+
+// rgScanFileWith: `text` renders a node (source text, or the AST as it is now when identifiers were renamed).
+func rgScanFileWith(p *packages.Package, f *ast.File, rel string, text func(ast.Node) string, panics, asserts, idx, mapw *[]string) {
 	for _, d := range f.Decls {
 		fd, ok := d.(*ast.FuncDecl)
 		if !ok || fd.Body == nil {
@@ -972,7 +977,7 @@ func rgScanFile(p *packages.Package, f *ast.File, rel string, panics, asserts, i
 		}
 		fname := fd.Name.Name
 		if fd.Recv != nil && len(fd.Recv.List) == 1 {
-			fname = strings.TrimPrefix(oneLine(nodeString(p, fd.Recv.List[0].Type)), "*") + "." + fname
+			fname = strings.TrimPrefix(oneLine(text(fd.Recv.List[0].Type)), "*") + "." + fname
 		}
 		key := func(s string) string { return rel + "|" + fname + "|" + s }
 		// comma-ok assertions and type switches
@@ -999,7 +1004,7 @@ func rgScanFile(p *packages.Package, f *ast.File, rel string, panics, asserts, i
 					case *ast.CompositeLit:
 						made[id.Name] = true
 					case *ast.CallExpr:
-						s := oneLine(nodeString(p, rr.Fun))
+						s := oneLine(text(rr.Fun))
 						if s == "make" || s == "maps.Clone" || s == "mergeMaps" {
 							made[id.Name] = true
 						}
@@ -1025,14 +1030,14 @@ func rgScanFile(p *packages.Package, f *ast.File, rel string, panics, asserts, i
 			switch x := n.(type) {
 			case *ast.CallExpr:
 				if id, ok := x.Fun.(*ast.Ident); ok && id.Name == "panic" && len(x.Args) == 1 {
-					*panics = append(*panics, key("panic "+oneLine(nodeString(p, x.Args[0]))))
+					*panics = append(*panics, key("panic "+oneLine(text(x.Args[0]))))
 				}
 				if sel, ok := x.Fun.(*ast.SelectorExpr); ok && (sel.Sel.Name == "Panic" || sel.Sel.Name == "Panicf" || sel.Sel.Name == "Fatal" || sel.Sel.Name == "Fatalf" || sel.Sel.Name == "DPanic") && len(x.Args) > 0 {
-					*panics = append(*panics, key(oneLine(nodeString(p, x.Fun))+" "+oneLine(nodeString(p, x.Args[0]))))
+					*panics = append(*panics, key(oneLine(text(x.Fun))+" "+oneLine(text(x.Args[0]))))
 				}
 			case *ast.TypeAssertExpr:
 				if x.Type != nil && !okAssert[x] {
-					*asserts = append(*asserts, key(oneLine(nodeString(p, x))))
+					*asserts = append(*asserts, key(oneLine(text(x))))
 				}
 			case *ast.IndexExpr:
 				if tv, ok := p.TypesInfo.Types[x.X]; ok && tv.Type != nil {
@@ -1041,17 +1046,17 @@ func rgScanFile(p *packages.Package, f *ast.File, rel string, panics, asserts, i
 					case *types.Signature:
 					case *types.Pointer:
 						if _, isArr := u.Elem().Underlying().(*types.Array); isArr {
-							*idx = append(*idx, key(oneLine(nodeString(p, x))))
+							*idx = append(*idx, key(oneLine(text(x))))
 						}
 					case *types.Slice, *types.Array, *types.Basic:
 						if tv.IsType() {
 							break // generic instantiation
 						}
-						*idx = append(*idx, key(oneLine(nodeString(p, x))))
+						*idx = append(*idx, key(oneLine(text(x))))
 					}
 				}
 			case *ast.SliceExpr:
-				*idx = append(*idx, key(oneLine(nodeString(p, x))))
+				*idx = append(*idx, key(oneLine(text(x))))
 			case *ast.AssignStmt:
 				for _, l := range x.Lhs {
 					ie, ok := l.(*ast.IndexExpr)
@@ -1068,7 +1073,7 @@ func rgScanFile(p *packages.Package, f *ast.File, rel string, panics, asserts, i
 					if id, ok := ie.X.(*ast.Ident); ok && made[id.Name] {
 						continue
 					}
-					*mapw = append(*mapw, key(oneLine(nodeString(p, l))))
+					*mapw = append(*mapw, key(oneLine(text(l))))
 				}
 			}
 			return true
